@@ -1,0 +1,27 @@
+//go:build verif
+
+package linkedhashmap
+
+// Read-only accessors for the verification harness (build tag verif).
+
+// VerifTableKeys returns the keys of the hash table (Go map order).
+func (m *Map[K, V]) VerifTableKeys() []K {
+	keys := make([]K, 0, len(m.table))
+	for k := range m.table {
+		keys = append(keys, k)
+	}
+	return keys
+}
+
+// VerifRevKeys walks the ordering list backwards (last to first).
+func (m *Map[K, V]) VerifRevKeys() []K {
+	var keys []K
+	it := m.ordering.Iterator()
+	for it.End(); it.Prev(); {
+		keys = append(keys, it.Value())
+	}
+	return keys
+}
+
+func (s *MapSafe[K, V]) VerifTableKeys() []K { return s.unsafe.VerifTableKeys() }
+func (s *MapSafe[K, V]) VerifRevKeys() []K   { return s.unsafe.VerifRevKeys() }
